@@ -7,7 +7,9 @@ from  : chains table -> q1 [-> q2] -> outer (inner queries filtered / aggregated
         reference model; (c) SELECT * FROM (q) == q.
 in    : x [NOT] IN (SELECT y FROM #u ...) in targets and WHERE, inner table different from the
         outer one, empty inner results, NULL x; vs the reference model and vs the same statement
-        with the subquery replaced by the literal list of its values."""
+        with the subquery replaced by the literal list of its values.
+twins : one statement with several sub-selects of identical text binding different positional (or named)
+        parameters, vs the same statement with the values written as literals."""
 from hypothesis import strategies as st
 
 from vlib import bql, gen, harness, htables, jsonio, refmodel
@@ -303,7 +305,68 @@ def prop_hidden(sh, case):
     return [(f'hidden:{s}', d) for s, d in fails]
 
 
-PARTS = {'from': prop_from, 'in': prop_in, 'stardup': prop_star_dup, 'hidden': prop_hidden}
+TWIN_FORMS = [
+    'SELECT x, x IN (SELECT a FROM #s WHERE b < {0}) AS m FROM #t WHERE x IN (SELECT a FROM #s WHERE b < {1})',
+    'SELECT x FROM #t WHERE x IN (SELECT a FROM #s WHERE b < {0}) AND x NOT IN (SELECT a FROM #s WHERE b < {1})',
+    'SELECT x, x IN (SELECT a FROM #s WHERE b < {0}) AS m, x IN (SELECT a FROM #s WHERE b < {1}) AS n FROM #t',
+    'SELECT x FROM #t WHERE x IN (SELECT a FROM #s WHERE b < {0} AND a IN (SELECT x FROM #t WHERE x > {1})) OR x IN (SELECT a FROM #s WHERE b < {2} AND a IN (SELECT x FROM #t WHERE x > {3}))',
+    'SELECT x, (SELECT count(a) FROM #s WHERE b < {0}) AS c FROM (SELECT x FROM #t WHERE x IN (SELECT a FROM #s WHERE b < {1})) WHERE x IN (SELECT a FROM #s WHERE b < {2})',
+]
+
+
+@st.composite
+def twins_case(draw):
+    """One statement holding several sub-selects that are the same text and differ in the positional parameters they bind."""
+    ival = st.none() | st.integers(-1, 6)
+    srows = draw(st.lists(st.tuples(st.integers(0, 5), ival), min_size=2, max_size=8))
+    trows = draw(st.lists(st.tuples(ival), min_size=1, max_size=7))
+    form = draw(st.integers(0, len(TWIN_FORMS) - 1))
+    n = TWIN_FORMS[form].count('{')
+    params = draw(st.lists(st.integers(-1, 7), min_size=n, max_size=n))
+    return {'tables': [{'name': 's', 'cols': [('a', 'int'), ('b', 'int')], 'rows': srows},
+                       {'name': 't', 'cols': [('x', 'int')], 'rows': trows}],
+            'form': form, 'params': params, 'named': draw(st.booleans()) and len(set(params)) == len(params)}
+
+
+def prop_twins(sh, case):
+    """Binding parameters equals writing the values: each sub-select sees its own parameters, however alike the texts."""
+    fails = []
+    form, params = TWIN_FORMS[case['form']], case['params']
+    literal = form.format(*params)
+    if case['named']:
+        text, bound = form.format(*[f'%(p{v + 1})s' for v in params]), {f'p{v + 1}': v for v in params}
+    else:
+        text, bound = form.format(*['%s'] * len(params)), tuple(params)
+    if case['form'] == 4 and not _scalar_subselects():
+        sh.record(None, False)
+        return fails
+    want = harness.engine(harness.connect(case['tables'])[0], literal)
+    got = harness.engine(harness.connect(case['tables'])[0], text, bound)
+    if want[0] == 'exc':
+        if got[0] != 'exc' or type(got[1]) is not type(want[1]):
+            fails.append(('twins:literal-form-raises-only', f'{literal!r}: {want[1]!r}; with parameters {got[1:]!r}'))
+        sh.record(None, False)
+        return fails
+    if got[0] == 'exc':
+        fails.append((exc_sig(got[1], 'twins:raises'), f'{text!r} {bound!r}: {got[1]!r}'))
+    elif got[2] != want[2] or harness.describe_types(got[1]) != harness.describe_types(want[1]):
+        fails.append(('twins:differs-from-literal-form', f'{text!r} {bound!r}\n got  {got[2]!r}\n want {want[2]!r} ({literal!r})'))
+    sh.record(jsonio.case_hash([case['form'], case['params'], case['tables'], case['named']]),
+              len(set(params)) >= 2 and len(want[2]) >= 1, {'text': text, 'params': list(params), 'rows': repr(want[2])[:160]})
+    return fails
+
+
+_SCALAR = []
+
+
+def _scalar_subselects():
+    if not _SCALAR:
+        t = [{'name': 't', 'cols': [('x', 'int')], 'rows': [(1,)]}]
+        _SCALAR.append(harness.engine(harness.connect(t)[0], 'SELECT (SELECT count(x) FROM #t) AS c FROM #t')[0] == 'ok')
+    return _SCALAR[0]
+
+
+PARTS = {'from': prop_from, 'in': prop_in, 'stardup': prop_star_dup, 'hidden': prop_hidden, 'twins': prop_twins}
 
 
 def run(sh):
@@ -312,3 +375,4 @@ def run(sh):
             sh.fail(sig, detail, case, 'hidden')
     sh.search('from', from_case(), prop_from, quick=3000, thorough=80000)
     sh.search('in', in_case(), prop_in, quick=3000, thorough=80000)
+    sh.search('twins', twins_case(), prop_twins, quick=800, thorough=40000)
